@@ -57,12 +57,16 @@ func (w *W) c13History(st *histState, g string, doc []byte, hseed int64, nops in
 	var trace []string
 	for step := 0; step < nops; step++ {
 		locs := allLocs(roots, 2000)
+		if step == nops-1 && hseed%9 == 0 {
+			// every ninth history ends by nulling the root value itself
+			locs = []Loc{{Root: 0}}
+		}
 		// prefer scalars; containers only get SetNull (other ops on them are "disallowed" checks)
 		l := locs[r.Intn(len(locs))]
 		for try := 0; try < 4 && len(l.Path) == 0; try++ {
 			l = locs[r.Intn(len(locs))] // the root value itself is rarely picked
 		}
-		if len(l.Path) == 0 && r.Chance(3, 4) {
+		if len(l.Path) == 0 && len(locs) > 1 && r.Chance(3, 4) {
 			continue
 		}
 		op := randSetOp(r)
